@@ -10,7 +10,6 @@ func init() {
 	PropConfigs["C06"] = &PropConfig{ID: "C06", Modules: []Module{rtModule}, Specs: []string{"common.smt2"}}
 	PropConfigs["C07"] = &PropConfig{ID: "C07", Modules: []Module{rtModule}, Specs: []string{"common.smt2"}}
 	PropConfigs["C20"] = &PropConfig{ID: "C20", Modules: []Module{{Dir: ".", Patterns: []string{"./internal/crosscompile"}}}, Specs: []string{"common.smt2", "paths.smt2"}}
-	PropConfigs["C17"] = &PropConfig{ID: "C17", Modules: []Module{{Dir: ".", Patterns: []string{"./internal/shellparse", "./xtool/safesplit"}}}, Specs: []string{"common.smt2"}}
 	PropConfigs["C10"] = &PropConfig{ID: "C10", Modules: []Module{rtModule}, Specs: []string{"common.smt2"}}
 	PropConfigs["C05"] = &PropConfig{ID: "C05", Modules: []Module{rtModule}, Specs: []string{"common.smt2", "utf8.smt2"}}
 }
